@@ -86,7 +86,8 @@ def func_items(tier):
 
 # -- wire level ----------------------------------------------------------------
 TREE = {"pub": {"f": b"pubf", "sub": {"g": b"pg"}}, "priv": {"f": b"privf", "sub": {"g": b"sg"}}, "top": b"t",
-        "public": {"f": b"publicf"}, "pub2": b"p2"}          # names that merely start with an entry's name
+        "public": {"f": b"publicf"}, "pub2": b"p2",          # names that merely start with an entry's name
+        "priv\\f": b"backslash-name"}                          # one component whose name contains a backslash
 WTABLES = {
     "none": [],
     "root-ro": [("/", True, False)],
@@ -97,7 +98,8 @@ WTABLES = {
     "sibling": [("/pub", False, False)],
 }
 TARGETS = ["/pub", "/pub/f", "/pub/sub", "/pub/sub/g", "/priv", "/priv/f", "/priv/sub", "/priv/sub/g", "/top", "/new",
-           "/pub/new", "/priv/new", "/priv/sub/new", "/", "/public", "/public/f", "/public/new", "/pub2", "/pubnew"]
+           "/pub/new", "/priv/new", "/priv/sub/new", "/", "/public", "/public/f", "/public/new", "/pub2", "/pubnew",
+           "/priv\\f", "/priv\\new"]
 VERBS = ["CWD", "CDUP", "LIST", "MLSD", "MLST", "RETR", "MKD", "RMD", "DELE", "RNFR", "RNTO", "STOR", "APPE"]
 CWDS = ["/", "/pub", "/priv/sub"]
 
